@@ -92,7 +92,8 @@ def check_text(spec, src, entry, exp_cells, fails, rec):
         fail('text-compiles-and-loads', f'load:{o[1] if len(o) > 1 else o[0]}', 'a loadable module', wbk.show_outcome(o), {'snippet': snippet(src, o)})
         return
     cls_a = o[1]
-    path = wbk.new_path('.py')
+    # the same file name every time: loading a written file must give the class of what was written last
+    path = os.path.join(env.tmpdir(), 'translation.py')
     with open(path, 'w', encoding='utf-8') as f:
         f.write(src)
     try:
@@ -238,6 +239,8 @@ def run_spec(spec, rec=None):
                               'bucket': 'translate:not-text', 'extra': None})
                 continue
             check_text(spec, o[1], ent, exp_cells, fails, rec)
+        if spec.get('entries') and spec.get('only_entry') is None:
+            fails += reuse_one_parser(spec, path, exp_cells, rec)
         return fails
     finally:
         try:
@@ -246,10 +249,61 @@ def run_spec(spec, rec=None):
             pass
 
 
+def reuse_one_parser(spec, path, exp_cells, rec):
+    """One Parser object walked over the formula cells as entry points (some fail): every call is a library exception or the
+    text a fresh Parser gives; a call that failed fails again when repeated; write_translation writes the returned text."""
+    fails = []
+    case = {**{k: v for k, v in spec.items() if k != '_stored'}, 'reuse': True}
+
+    def fail(bucket, expected, actual, extra=None):
+        fails.append({'case': case, 'expected': expected, 'actual': actual, 'relation': 'library-exception-or-text', 'bucket': bucket, 'extra': extra})
+    p = wbk.Parser().set_excel_file_path(path)
+    p.disable_safety_check()
+    entries = [(si, c, r) for (si, c, r, v) in exp_cells if is_formula(v)][:6]
+    out_path = os.path.join(env.tmpdir(), 'written.py')
+    for (si, c, r) in entries:
+        if rec:
+            rec.count('reuse_steps')
+        p.set_entrypoint_cell(wbk.Cell(si, c - 1, r - 1))
+        o1 = wbk.outcome(p.get_translation)
+        fresh = wbk.outcome(lambda: wbk.translate_path(path, entry=(si, c - 1, r - 1)))
+        if 'timeout' in (o1[0], fresh[0]):
+            continue
+        for name, o in (('get', o1),):
+            if o[0] == 'foreign':
+                fail(f'reuse:{name}:{o[1]}', 'text or library exception', wbk.show_outcome(o), {'entry': [si, wbk.a1(c, r)]})
+            elif o[0] == 'value' and not isinstance(o[1], str):
+                fail(f'reuse:{name}:not-text', 'text', repr(o[1])[:60], {'entry': [si, wbk.a1(c, r)]})
+        if (o1[0], fresh[0]) == ('value', 'value') and o1[1] != fresh[1]:
+            fail('reuse:differs-from-fresh-parser', 'the text of a fresh Parser', 'another text', {'entry': [si, wbk.a1(c, r)]})
+        elif (o1[0] == 'value') != (fresh[0] == 'value'):
+            fail('reuse:outcome-differs-from-fresh-parser', wbk.show_outcome(fresh)[:2], wbk.show_outcome(o1)[:2] if o1[0] != 'value' else 'text', {'entry': [si, wbk.a1(c, r)]})
+        # again, without a setter in between
+        o2 = wbk.outcome(p.get_translation)
+        if o2[0] != 'timeout':
+            if o1[0] == 'lib' and o2[0] != 'lib':
+                fail('reuse:retry-after-failure', wbk.show_outcome(o1)[:2], wbk.show_outcome(o2)[:2] if o2[0] != 'value' else repr(o2[1])[:40], {'entry': [si, wbk.a1(c, r)]})
+            elif o1[0] == 'value' and (o2[0] != 'value' or o2[1] != o1[1]):
+                fail('reuse:repeat-differs', 'the same text', wbk.show_outcome(o2)[:2] if o2[0] != 'value' else 'another text', {'entry': [si, wbk.a1(c, r)]})
+        ow = wbk.outcome(lambda: p.write_translation(out_path))
+        if ow[0] == 'foreign':
+            fail(f'reuse:write:{ow[1]}', 'file written or library exception', wbk.show_outcome(ow), {'entry': [si, wbk.a1(c, r)]})
+        elif ow[0] == 'value' and o1[0] == 'value':
+            with open(out_path, encoding='utf-8') as f:
+                if f.read() != o1[1]:
+                    fail('reuse:written-file-differs', 'the returned text', 'another text', {'entry': [si, wbk.a1(c, r)]})
+        elif ow[0] == 'value' and o1[0] == 'lib':
+            fail('reuse:write-after-failure', wbk.show_outcome(o1)[:2], 'file written', {'entry': [si, wbk.a1(c, r)]})
+    return fails
+
+
 def run_case(case):
     if 'family' in case:
         return run_family_point(case['family'], case['size'], None)[0]
     spec = dict(case)
+    if spec.pop('reuse', False):
+        spec.pop('entry', None)
+        return [f for f in run_spec({**spec, 'entries': spec.get('entries') or 6}) if f['case'].get('reuse')]
     ent = spec.pop('entry', 'absent')
     if ent != 'absent':
         spec['only_entry'] = list(ent) if ent else []
